@@ -47,3 +47,18 @@ Fixpoint cum_days (y : Z) (n : nat) : Z :=   (* days in months 1..n of year y *)
 Definition doy_of (x : date) : Z := let '(y, m, d) := x in cum_days y (Z.to_nat (m - 1)) + d.
 
 (* weekday, 0 = Sunday; ISO weekday 1 = Monday .. 7 = Sunday *)
+Definition wd0_monday (d : Z) : Z := d mod 7.          (* 0 = Monday: day 0 (0001-01-01) is a Monday *)
+Definition week_thursday (d : Z) : Z := d - d mod 7 + 3.
+
+(* months are counted on one line: index 12*a + (m-1) for astronomical year a, so that December of
+   year -1 (a = 0) is directly followed by January of year 1 *)
+Definition month_index (y m : Z) : Z := 12 * astro y + (m - 1).
+Definition of_month_index (i : Z) : Z * Z := (unastro (i / 12), i mod 12 + 1).
+(* N calendar months away, same day of month, reduced to the last day of a shorter target month *)
+Definition add_months_spec (x : date) (k : Z) : date :=
+  let '(y, m, d) := x in
+  let '(y', m') := of_month_index (month_index y m + k) in
+  (y', m', Z.min d (mlen y' m')).
+Definition add_years_spec (x : date) (k : Z) : date :=
+  let '(y, m, d) := x in
+  let y' := unastro (astro y + k) in (y', m, Z.min d (mlen y' m)).
